@@ -229,6 +229,7 @@ class Translator:
 
     # ================================================================== helpers
     def abort(self, n, what):
+        n = n or {}
         r = n.get('range', {}).get('begin', {})
         raise ExtractError('%s: cannot translate %s (%s) at %s:%s' % (
             self.cur.qual if self.cur else '?', what, n.get('kind'), r.get('_file'), r.get('_line')))
@@ -586,7 +587,9 @@ class Translator:
             if ck == 'IntegralToFloating':
                 if src == '_Bool':
                     return '((%s) ? (%s)1 : (%s)0)' % (x, ct, ct)      # CBMC has no bool -> real cast of a symbolic value
-                return 'INT_TO_REAL(%s, %s)' % (src.replace(' ', '_'), x)
+                if re.match(r'^[\s(]*-?\d+[uUlL]*[\s)]*$', x):
+                    return 'INT_TO_REAL(%s, %s)' % (src.replace(' ', '_'), x)
+                return 'INT_TO_REAL_VAR(%s, %s)' % (src.replace(' ', '_'), x)
             if ck == 'FloatingToIntegral':
                 return 'REAL_TO_INT(%s, %s)' % (ct.replace(' ', '_'), x)
             if ck == 'FloatingCast':
@@ -626,6 +629,13 @@ class Translator:
             return 'IDIV(%s, %s)' % (a, b) if op == '/' else 'IMOD(%s, %s)' % (a, b)
         if op == ',':
             return '(%s, %s)' % (a, b)
+        if op == '*' and getattr(self, 'abstract_mul', False) and not self._is_real(n):
+            lit = lambda t: re.match(r'^[\s(]*(CAST\(\w+, \w+, )?-?\d+[uUlL]*[\s)]*$', t)
+            if not lit(a) and not lit(b):
+                if self.tm.tname(n['type']) != 'c_ulong':
+                    self.abort(n, 'product of two non-constant integers of type %s in an @abstractmul unit' % self.tm.tname(n['type']))
+                self.cur.stubs.add('size_t product as an uninterpreted function (@abstractmul; sound abstraction of machine multiplication)')
+                return 'VERIF_UMUL(%s, %s)' % (a, b)
         return '%s %s %s' % (a, op, b)
 
     def e_CompoundAssignOperator(self, n, i):
@@ -744,6 +754,11 @@ class Translator:
             return self.mk_struct(ct, ['_%d' % j for j in range(len(args))], [self.e(a) for a in args])
         if kind and kind[0] == 'tup' and not args:
             return '((%s){ 0 })' % ct
+        if kind and kind[0] == 'vec' and not args:
+            # std::vector<T>(): empty
+            self.tmpn = getattr(self, 'tmpn', 0) + 1
+            t = 'verif_v%d' % self.tmpn
+            return '({ %s %s; VEC_INIT_EMPTY(%s); %s; })' % (ct, t, t, t)
         if kind and kind[0] == 'vec' and len(args) == 1 and self.tm.tname(args[0]['type']) in SCALAR_C:
             # std::vector<T>(n): n value-initialised elements
             self.tmpn = getattr(self, 'tmpn', 0) + 1
@@ -752,14 +767,14 @@ class Translator:
                 # quantifier-free: value-initialisation stated at the unit's ghost indices only (weaker, sound)
                 return '({ %s %s; %s.size = %s; %s %s; })' % (
                     ct, t, t, self.e(args[0]), ' '.join('__CPROVER_assume(%s.data[%s] == 0);' % (t, g) for g in self.instantiate), t)
-            return '({ %s %s; %s.size = %s; __CPROVER_assume(__CPROVER_forall { unsigned long verif_q; %s.data[verif_q] == 0 }); %s; })' % (
+            return '({ %s %s; %s.size = %s; __CPROVER_assume(__CPROVER_forall { c_ulong verif_q; %s.data[verif_q] == 0 }); %s; })' % (
                 ct, t, t, self.e(args[0]), t, t)
         if kind and kind[0] == 'vec' and len(args) == 2 and self.tm.tname(args[0]['type']) in SCALAR_C and \
                 self.tm.tname(args[1]['type']).rstrip(' *').rstrip() == kind[1]:
             # std::vector<T>(n, value)
             self.tmpn = getattr(self, 'tmpn', 0) + 1
             t = 'verif_v%d' % self.tmpn
-            return '({ %s %s; %s.size = %s; __typeof__(%s.data[0]) verif_fill = %s; __CPROVER_assume(__CPROVER_forall { unsigned long verif_q; %s.data[verif_q] == verif_fill }); %s; })' % (
+            return '({ %s %s; %s.size = %s; __typeof__(%s.data[0]) verif_fill = %s; __CPROVER_assume(__CPROVER_forall { c_ulong verif_q; %s.data[verif_q] == verif_fill }); %s; })' % (
                 ct, t, t, self.e(args[0]), t, self.e(args[1]), t, t)
         if kind and kind[0] == 'opt' and not args:
             return '((%s){ 0 })' % ct
@@ -833,6 +848,13 @@ class Translator:
         if x.startswith('(*') and x.endswith(')') and self._balanced(x[2:-1]):
             return x[2:-1]
         if self._lvalue_text(x) or re.match(r'(OPT_VAL\(|UPTR_VAL\(|\(?[A-Za-z_]\w*(\.|->))', x) and not re.search(r'\w\(', x.replace('OPT_VAL(', '').replace('UPTR_VAL(', '')):
+            if self.member_of_unbounded(x):
+                # CBMC cannot form the address of a member of a record that holds unbounded arrays: the sub-object is
+                # copied into a local for the statement (and back afterwards if the callee may modify it)
+                ptr = self.hoist(a, x)
+                if mutable:
+                    self.post.append('%s = %s;' % (x, ptr[1:]))
+                return ptr
             return '&' + x
         if a.get('valueCategory') == 'lvalue' and not re.match(r'[A-Za-z_]\w*\(', x):
             return '&' + x
@@ -860,6 +882,8 @@ class Translator:
             ref, _ = self.callee_decl(y['inner'][0])
             if ref and ref.get('name') in ('transform', 'copy') and len(y['inner']) >= 4:
                 return self.iter_container(y['inner'][3])
+            if ref and ref.get('name') in ('min_element', 'max_element') and len(y['inner']) == 3:
+                return self.iter_container(y['inner'][1])
         self.abort(x, 'iterator expression whose container is not known statically')
 
     def member_of_unbounded(self, x):
@@ -1096,6 +1120,33 @@ class Translator:
             if name == 'infinity' and not args:
                 self.cur.stubs.add('infinity as an unspecified real')
                 return 'V_INFINITY'
+            if name in ('min_element', 'max_element', 'accumulate') and len(args) >= 2 and full is None:
+                try:
+                    its = [self.tm.tname(a['type']).rstrip(' *').rstrip() for a in args[:2]]
+                except ExtractError:
+                    its = []
+                if its == ['c_vecit', 'c_vecit']:
+                    c = self.iter_container(args[0])
+                    if c != self.iter_container(args[1]):
+                        self.abort(n, 'std::%s over iterators of two different containers' % name)
+                    if name != 'accumulate' and len(args) == 2:
+                        self.cur.stubs.add('std::%s(first, last): the first position in [first, last) holding an extreme element, last if the range is empty' % name)
+                        return 'STD_%s(%s, %s, %s)' % (name.upper(), c, A(0), A(1))
+                    if name == 'accumulate' and len(args) in (3, 4):
+                        # the fold is a recursive specification function: the unit's prelude defines STD_ACCUMULATE_<op>
+                        # (obligation: the ghost running fold it names satisfies the recurrence over this very vector)
+                        op = 'SUM'
+                        if len(args) == 4:
+                            oq = args[3]['type']['qualType']
+                            if re.match(r'(const )?std::multiplies<', oq):
+                                op = 'PROD'
+                            elif re.match(r'(const )?std::plus<', oq):
+                                op = 'SUM'
+                            else:
+                                self.abort(n, 'std::accumulate with a callable of type ' + oq)
+                        self.cur.stubs.add('std::accumulate(first, last, init%s): the last term of ANY sequence s with s[0] = init, s[k+1] = s[k] %s v[k] (uniqueness of the fold recurrence)' % (
+                            ', multiplies' if op == 'PROD' else '', '*' if op == 'PROD' else '+'))
+                        return 'STD_ACCUMULATE_%s(%s, %s, %s, %s)' % (op, c, A(0), A(1), A(2))
             if name in self.lib:
                 self.cur.stubs.add(self.lib[name])
                 return '%s(%s)' % (self.lib[name], ', '.join(self.lib_arg(a) for a in args))
@@ -1693,7 +1744,9 @@ class Translator:
                 if me['name'] == 'resize' and len(margs) == 2:
                     return self.vec_update(o, self.e(margs[0]), self.e(margs[1]), 'keep', 'vector::resize(n, v): the first min(n, size) elements are kept, new elements are copies of v')
                 if me['name'] == 'resize' and len(margs) == 1:
-                    return self.vec_update(o, self.e(margs[0]), '0', 'keep', 'vector::resize(n): the first min(n, size) elements are kept, new elements are value-initialised')
+                    ect = self.tm.kinds[oct0][1]
+                    return self.vec_update(o, self.e(margs[0]), '0' if ect in SCALAR_C else None, 'keep',
+                                           'vector::resize(n): the first min(n, size) elements are kept, new elements are value-initialised', elem_ct=ect)
         af = self._assert_cond(n)
         if af is not None:
             self.out('VERIF_ASSERT(%s, "%s/assert line %s");' % (self.e(af), self.cur.cname, self._line(n)))
@@ -2021,6 +2074,14 @@ class Translator:
         iv = 'verif_i%d' % k
         self.out('{')
         self.ind += 1
+        if re.search(r'[A-Za-z_]\w*\(', rtxt) and not rtxt.startswith(('VEC_AT(', 'OPT_VAL(', 'UPTR_VAL(')):
+            # the range expression is a call: it is evaluated once, before the loop
+            for st in self.pre:
+                self.out(st)
+            self.pre = []
+            self.out('%s verif_rng%d = %s;' % (rt, k, rtxt))
+            self.propagate()
+            rtxt = 'verif_rng%d' % k
         self.out('c_ulong %s = 0;' % iv)
         if kind[0] == 'vec':
             elem = 'VEC_AT(%s, %s)' % (rtxt, iv)
@@ -2209,7 +2270,7 @@ class Translator:
             for g in self.instantiate:
                 self.out('__CPROVER_assume(verif_dn.data[%s] == (%s ? (%s) : verif_old.data[%s]));' % (g, rng % (g, g), newv.replace('verif_q', g), g))
         else:
-            self.out('__CPROVER_assume(__CPROVER_forall { unsigned long verif_q; verif_dn.data[verif_q] == (%s ? (%s) : verif_old.data[verif_q]) });' % (rng % ('verif_q', 'verif_q'), newv))
+            self.out('__CPROVER_assume(__CPROVER_forall { c_ulong verif_q; verif_dn.data[verif_q] == (%s ? (%s) : verif_old.data[verif_q]) });' % (rng % ('verif_q', 'verif_q'), newv))
         self.out('(%s) = verif_dn;' % xtxt)
         self.ind -= 1
         self.out('}')
@@ -2262,8 +2323,8 @@ class Translator:
                 self.out('__CPROVER_assume(((%s) < verif_old.size) ? (verif_dn.data[%s] == (%s)) : (verif_dn.data[%s] == verif_old.data[%s]));' % (
                     g, g, newv.replace('verif_q', g), g, g))
         else:
-            self.out('__CPROVER_assume(__CPROVER_forall { unsigned long verif_q; (verif_q < verif_old.size) ==> verif_dn.data[verif_q] == (%s) });' % newv)
-            self.out('__CPROVER_assume(__CPROVER_forall { unsigned long verif_q; (verif_q >= verif_old.size) ==> verif_dn.data[verif_q] == verif_old.data[verif_q] });')
+            self.out('__CPROVER_assume(__CPROVER_forall { c_ulong verif_q; (verif_q < verif_old.size) ==> verif_dn.data[verif_q] == (%s) });' % newv)
+            self.out('__CPROVER_assume(__CPROVER_forall { c_ulong verif_q; (verif_q >= verif_old.size) ==> verif_dn.data[verif_q] == verif_old.data[verif_q] });')
         self.out('(%s) = verif_dn;' % rtxt)
         self.ind -= 1
         self.out('}')
@@ -2415,7 +2476,7 @@ class Translator:
         self.ind += 1
         self.out('__typeof__(%s) verif_old = (%s);' % (src, src))
         self.out('__typeof__(%s) verif_dold = (%s);' % (dbase, dbase))
-        self.out('unsigned long verif_off = (%s);' % doff)
+        self.out('c_ulong verif_off = (%s);' % doff)
         self.out('VERIF_OBL(verif_off <= verif_dold.size && verif_old.size <= verif_dold.size - verif_off, "%s/std::transform: the destination range lies inside the destination vector (line %s)");' % (self.cur.cname, self._line(n)))
         self.out('__typeof__(%s) verif_dn;' % dbase)
         self.out('__CPROVER_assume(verif_dn.size == verif_dold.size);')
@@ -2490,13 +2551,66 @@ class Translator:
                 fg = fx.replace('verif_q', g)
                 self.out('__CPROVER_assume(((%s) < verif_old.size) ? (verif_dn.data[%s] == (%s)) : (verif_dn.data[%s] == (%s).data[%s]));' % (g, g, fg, g, dst, g))
         else:
-            self.out('__CPROVER_assume(__CPROVER_forall { unsigned long verif_q; (verif_q < verif_old.size) ==> verif_dn.data[verif_q] == (%s) });' % fx)
-            self.out('__CPROVER_assume(__CPROVER_forall { unsigned long verif_q; (verif_q >= verif_old.size) ==> verif_dn.data[verif_q] == (%s).data[verif_q] });' % dst)
+            self.out('__CPROVER_assume(__CPROVER_forall { c_ulong verif_q; (verif_q < verif_old.size) ==> verif_dn.data[verif_q] == (%s) });' % fx)
+            self.out('__CPROVER_assume(__CPROVER_forall { c_ulong verif_q; (verif_q >= verif_old.size) ==> verif_dn.data[verif_q] == (%s).data[verif_q] });' % dst)
         self.out('(%s) = verif_dn;' % dst)
         self.ind -= 1
         self.out('}')
 
-    def vec_update(self, dst, new_size, fx, keep, what):
+    def elem_eq(self, ct, a, b):
+        """quantifier-free text of a == b for a value of C type ct (scalars, optionals, tuples, arrays, records of those)"""
+        if ct in SCALAR_C or ct.endswith('*'):
+            return '(%s == %s)' % (a, b)
+        k = self.tm.kinds.get(ct)
+        if not k or k[0] == 'vec':
+            self.abort(None, 'element-wise equality of objects of type ' + ct)
+        if k[0] == 'arr':
+            return '(' + ' && '.join(self.elem_eq(k[1], '%s.a[%d]' % (a, i), '%s.a[%d]' % (b, i)) for i in range(k[2])) + ')'
+        if k[0] == 'tup':
+            return '(' + ' && '.join(self.elem_eq(t, '%s._%d' % (a, i), '%s._%d' % (b, i)) for i, t in enumerate(k[1])) + ')'
+        if k[0] == 'opt':
+            return '(%s.has == %s.has && (!%s.has || %s))' % (a, b, a, self.elem_eq(k[1], a + '.val', b + '.val'))
+        return '(' + (' && '.join(self.elem_eq(t, '%s.%s' % (a, n), '%s.%s' % (b, n)) for t, n in k[1]) or '1') + ')'
+
+    def _is_empty_init(self, x):
+        """`member{}`: an empty initialiser list / a construction without arguments"""
+        while x.get('kind') in ('ExprWithCleanups', 'CXXBindTemporaryExpr', 'MaterializeTemporaryExpr', 'ImplicitCastExpr') and x.get('inner'):
+            x = [y for y in x['inner'] if y][0]
+        return x.get('kind') in ('InitListExpr', 'CXXConstructExpr', 'CXXTemporaryObjectExpr') and not [y for y in x.get('inner', []) if y]
+
+    def value_init_facts(self, ct, a, n=None):
+        """text stating that the object a of C type ct is value-initialised (T{}): scalars are zero, optionals empty, records
+        with an implicit / defaulted default constructor have their default member initialisers or value-initialised
+        members.  Anything else (a user-provided default constructor, containers) aborts."""
+        if ct == 'c_opaque':
+            return '1'
+        if ct in SCALAR_C or ct.endswith('*'):
+            return '(%s == 0)' % a
+        k = self.tm.kinds.get(ct)
+        if k and k[0] == 'opt':
+            return '(!%s.has)' % a
+        if k and k[0] == 'vec':
+            return '(%s.size == 0)' % a
+        if k and k[0] == 'rec':
+            rec = self.rec_decls.get(ct) or {}
+            for c in rec.get('inner', []):
+                if c.get('kind') == 'CXXConstructorDecl' and not c.get('isImplicit') and not c.get('explicitlyDefaulted') and \
+                        re.match(r'void \((void)?\)', c.get('type', {}).get('qualType', '')):
+                    self.abort(n, 'value-initialisation of %s, whose default constructor is user-provided' % ct)
+            facts = []
+            for t, fn in k[1]:
+                fd = [x for x in rec.get('inner', []) if x.get('kind') == 'FieldDecl' and x.get('name') == fn]
+                init = [y for y in (fd[0].get('inner', []) if fd else []) if y and is_expr(y)]
+                if init and (t in SCALAR_C):
+                    facts.append('(%s.%s == %s)' % (a, fn, self.e(init[-1])))
+                elif init and not self._is_empty_init(init[-1]):
+                    self.abort(n, 'default member initialiser of the non-scalar member %s.%s' % (ct, fn))
+                else:
+                    facts.append(self.value_init_facts(t, '%s.%s' % (a, fn), n))
+            return '(' + (' && '.join(facts) or '1') + ')'
+        self.abort(n, 'value-initialisation of an object of type ' + ct)
+
+    def vec_update(self, dst, new_size, fx, keep, what, elem_ct=None):
         """dst becomes a vector of new_size elements: element q is fx (an expression in verif_q, verif_old); with
         keep='keep' the elements below the old size are retained.  Stated at the unit's ghost indices when
         @instantiate is given (weaker, sound), else with a quantifier."""
@@ -2504,10 +2618,15 @@ class Translator:
         self.out('{   /* %s */' % what)
         self.ind += 1
         self.out('__typeof__(%s) verif_old = (%s);' % (dst, dst))
-        self.out('unsigned long verif_ns = (%s);' % new_size)
+        self.out('c_ulong verif_ns = (%s);' % new_size)
         self.out('__typeof__(%s) verif_dn;' % dst)
         self.out('__CPROVER_assume(verif_dn.size == verif_ns);')
         def fact(q):
+            if fx is None:
+                # new elements are value-initialised objects of the (non-scalar) element type
+                new = self.value_init_facts(elem_ct, 'verif_dn.data[%s]' % q)
+                same = self.elem_eq(elem_ct, 'verif_dn.data[%s]' % q, 'verif_old.data[%s]' % q)
+                return '((%s) < verif_old.size ? %s : %s)' % (q, same, new) if keep else new
             f = fx.replace('verif_q', q)
             if keep:
                 return '((%s) < verif_old.size ? verif_dn.data[%s] == verif_old.data[%s] : verif_dn.data[%s] == (%s))' % (q, q, q, q, f)
@@ -2516,7 +2635,7 @@ class Translator:
             for g in self.instantiate:
                 self.out('__CPROVER_assume(!((%s) < verif_ns) || %s);' % (g, fact(g)))
         else:
-            self.out('__CPROVER_assume(__CPROVER_forall { unsigned long verif_q; (verif_q < verif_ns) ==> %s });' % fact('verif_q'))
+            self.out('__CPROVER_assume(__CPROVER_forall { c_ulong verif_q; (verif_q < verif_ns) ==> %s });' % fact('verif_q'))
         self.out('(%s) = verif_dn;' % dst)
         self.ind -= 1
         self.out('}')
@@ -2786,6 +2905,13 @@ class Translator:
                 if not fld:
                     self.abort(ci, 'base/delegating constructor initialiser')
                 x = [y for y in ci.get('inner', []) if y]
+                if x and x[0].get('kind') == 'CXXDefaultInitExpr':
+                    # default member initialiser: the expression is the one written at the field's declaration
+                    fd = self.db.byid.get(fld.get('id')) or {}
+                    init = [y for y in fd.get('inner', []) if y and is_expr(y)]
+                    if fd.get('kind') != 'FieldDecl' or fd.get('name') != fld.get('name') or not init:
+                        self.abort(ci, 'default member initialiser of ' + str(fld.get('name')))
+                    x = [init[-1]]
                 self.out('self->%s = %s;' % (fld['name'], self.e(x[0])))
         g = self.ghost_get((cname, 'entry'))
         if g:
@@ -3046,12 +3172,12 @@ class Translator:
         if 'v_substr' in self.helpers:
             out.append('''/* std::string(_view)::substr(pos, n): ASSUMED library contract (a macro: CBMC cannot pass unbounded arrays by value) */
 #define v_substr(verif_s, verif_pos0, verif_n0) ({ \\
-    unsigned long verif_pos = (verif_pos0), verif_n = (verif_n0); \\
+    c_ulong verif_pos = (verif_pos0), verif_n = (verif_n0); \\
     VERIF_OBL(verif_pos <= (verif_s).size, "substr: pos <= size() (std::out_of_range otherwise)"); \\
-    struct vec_char verif_r; unsigned long verif_len = (verif_s).size - verif_pos; \\
+    struct vec_char verif_r; c_ulong verif_len = (verif_s).size - verif_pos; \\
     if (verif_n < verif_len) verif_len = verif_n; \\
     __CPROVER_assume(verif_r.size == verif_len); \\
-    __CPROVER_assume(__CPROVER_forall { unsigned long verif_k; (verif_k < verif_len) ==> verif_r.data[verif_k] == (verif_s).data[verif_pos + verif_k] }); \\
+    __CPROVER_assume(__CPROVER_forall { c_ulong verif_k; (verif_k < verif_len) ==> verif_r.data[verif_k] == (verif_s).data[verif_pos + verif_k] }); \\
     verif_r; })''')
         return '\n'.join(out) + '\n'
 
